@@ -909,7 +909,7 @@ func (h *c07Hist) emit(n, extraPatterns int) string {
 // ---------------------------------------------------------------- test
 
 func TestVerif_C07(t *testing.T) {
-	res := newVerifResult("random histories (<= 10 ops, then a forced full outage with logins) of login {current, old, wrong, empty password; mixed-case user names} / replica {up, down, erroring} / password change / clock advance {1h..200h, by re-issuing the stored records earlier} / primary {up, slow, dead} / copy / tampering by SQL {any existing record into any slot with any expiration column, column only, forged records (attacker key, edited payload, alg none), delete} for two users (+ one user living under the second bind pattern) against an in-process LDAPS directory with two replicas, the real lib/pwauth/ldap authenticator and the real RuntimeState storage on SQLite, through the real login handler; the Coq model runs the same histories (verdict of every login, both stores after every op); htpassword and command backends on mixed-case names; non-trivial = a login; distinct by (user, answered, directory verdict, verdict, mode)")
+	res := newVerifResult("random histories (<= 10 ops, then a forced full outage with logins) of login {current, old, wrong, empty password; mixed-case user names} / replica {up, down, erroring} / password change / clock advance {1h..200h, by re-issuing the stored records earlier} / primary {up, slow, dead} / copy / tampering by SQL {any existing record into any slot with any expiration column, column only, forged records (attacker key, edited payload, alg none), delete} for two users (+ one user living under the second bind pattern) against an in-process LDAPS directory with two replicas, the real lib/pwauth/ldap authenticator and the real RuntimeState storage on SQLite, through the real login handler; the Coq model runs the same histories (verdict of every login, both stores after every op); htpassword and command backends on mixed-case names, and over histories in which the backend's file (htpasswd file, the command's data file, the command script itself) is edited between logins {password change, user removed, user added} x {in place, temp + rename} x {same size, other size} x {mtime restored, later, earlier} with ONE backend object per history behind the real login handler; non-trivial = a login (for the backend histories: a login after at least one edit); distinct by (user, answered, directory verdict, verdict, mode)")
 	e := c15Setup(t, res)
 	st := e.st
 	rng := verifRand()
